@@ -75,6 +75,9 @@ def check_valid_signature(sig: bytes) -> None:
 def check_low_der_signature(sig_pair: tuple[int, int], generator: Any) -> None:
     # IsLowDERSignature
     r, s = sig_pair
+    if r >= generator.order() or s >= generator.order():
+        # an out-of-range signature is not "high": it simply fails to verify later
+        return
     hi_s = generator.order() - s
     if hi_s < s:
         raise ScriptError("signature has high S value", errno.SIG_HIGH_S)
